@@ -41,8 +41,10 @@ CLAIMED = {
  "C04": C("Proof (Coq) at handler level: division/remainder by zero, decimal overflow, a shift count outside 0..=63, a non-integral or "
           "out-of-i64 operand of a bit operator and empty min/max are errors for ALL operands (C04_div_rem_by_zero, C04_overflow_is_err, "
           "C04_shift_count, C04_bit_operand, C04_empty_aggregates); an accepted shift is the arithmetic one (C04_shift_ok); an exact decimal "
-          "result is unmodified (C04_fit_no_wrap). No-panic of the whole evaluator: the model's result type has no panic for built-ins; the impl "
-          "is run in BOTH debug and release builds and the two must agree. " + TIE,
+          "result is unmodified (C04_fit_no_wrap). THE ENGINE NEVER PANICS (C04_engine_never_panics, C04_exec_never_panics): for every program text, context, "
+          "registry contents and nesting of handler re-entry, with handlers that do not themselves panic (the built-ins in particular), execute / exec return a "
+          "value or an error - never a panic or deadlock - and leave every lock free and unpoisoned (induction over evaluator, scripts and fuel; the parser's part "
+          "is C01). The impl is run in BOTH debug and release builds and the two must agree. " + TIE,
           "Coq kernel; debug + release builds of the harness; rust_decimal modelled.", "Coq proofs over the handler model + two-profile differential correspondence", "6/C04"),
  "C05": C("Proof (Coq). NO JUNK (C05_grammar_sound, lemma (C), Lemmas/Grammar.v): for every operator table with positive infix precedences, whatever the parser "
           "model accepts is derivable in the documented lenient grammar Gprog (literals, names, calls, lists/maps with optional trailing comma, parentheses, prefix/"
